@@ -15,6 +15,8 @@ RULE = ("cases = generated plotfiles (2D/3D, 1-4 levels, non-zero origin, anisot
         "non-trivial = >=2 levels or non-zero origin or anisotropic cells or repeated names")
 ASSUMPTIONS = ["generator + refparse are the trusted base (round-trip self-check per case)",
                "float(text) round trip of repr/%.17g is exact"]
+# the share of cases also run under python -O (1 = all): the anchor code validates with assert statements
+OPT_SUBSET = {"quick": 1, "thorough": 2}
 REQUIRED_OBS = {"openings": 200, "over_limit_refused": 20, "header_only_without_levels": 20}
 
 
